@@ -594,6 +594,10 @@ where
                     "leaking tracked struct {:?} due to generation overflow",
                     self.database_key_index(id)
                 );
+                #[cfg(salsa_rs_salsa_verif)]
+                crate::verif_life::emit(|| {
+                    format!("sreuse {} {} -1", id.index(), id.generation())
+                });
 
                 continue;
             };
@@ -605,6 +609,15 @@ where
                 "free list entry for `{id:?}` does not have `None` for `updated_at`"
             );
 
+            #[cfg(salsa_rs_salsa_verif)]
+            crate::verif_life::emit(|| {
+                format!(
+                    "sreuse {} {} {}",
+                    id.index(),
+                    id.generation().wrapping_sub(1),
+                    id.generation()
+                )
+            });
             // Overwrite the free-list entry. Use `*foo = ` because the entry
             // has been previously initialized and we want to free the old contents.
             *data_raw = value(id);
@@ -612,6 +625,10 @@ where
         }
 
         let (id, _) = zalsa_local.allocate::<Value<C>>(zalsa, self.ingredient_index, value);
+        #[cfg(salsa_rs_salsa_verif)]
+        crate::verif_life::emit(|| {
+            format!("snew 1 {} {}", id.index(), self.ingredient_index.as_u32())
+        });
 
         id
     }
@@ -724,6 +741,15 @@ where
 
         let identity_fields_changed =
             C::update_fields(current_deps.changed_at, revisions, old_fields, fields);
+        #[cfg(salsa_rs_salsa_verif)]
+        crate::verif_life::emit(|| {
+            format!(
+                "supdate {} {} {}",
+                id.index(),
+                id.generation(),
+                identity_fields_changed as u8
+            )
+        });
 
         if identity_fields_changed {
             // Consider this a new tracked struct when any identity field changed.
@@ -815,6 +841,9 @@ where
             Some(_) => (),
         }
 
+        #[cfg(salsa_rs_salsa_verif)]
+        crate::verif_life::emit(|| format!("sdelete {} {}", id.index(), id.generation()));
+
         // SAFETY: We have acquired the write lock by swapping `None` into `updated_at`
         let memo_table = unsafe { &mut (*data).memos };
 
@@ -824,6 +853,8 @@ where
 
         // now that all cleanup has occurred, make available for re-use
         self.free_list.push(id);
+        #[cfg(salsa_rs_salsa_verif)]
+        crate::verif_life::emit(|| format!("sfree {} {}", id.index(), id.generation()));
         #[cfg(salsa_rs_salsa_verif)]
         crate::verif_conc::emit(crate::verif_conc::Ev::Free {
             ingredient: self.ingredient_index.as_u32(),
@@ -905,6 +936,8 @@ where
 
         // SAFETY: `data` is a valid pointer acquired from the table.
         let fields = unsafe { self.lock_fields(data, zalsa.current_revision()) };
+        #[cfg(salsa_rs_salsa_verif)]
+        crate::verif_life::emit(|| format!("fhandout 1 {}", id.index()));
 
         // SAFETY: We just acquired the read lock (in `Self::fields`), so accessing `revisions` will not be able to alias
         let field_changed_at = unsafe { (&(*data).revisions)[relative_tracked_index].load() };
@@ -934,6 +967,14 @@ where
         // Note that we do not need to add a dependency on the tracked struct
         // as IDs that are reused increment their generation, invalidating any
         // dependent queries directly.
+        #[cfg(salsa_rs_salsa_verif)]
+        {
+            // SAFETY: `data` is a valid pointer acquired from the table.
+            let fields = unsafe { self.lock_fields(data, zalsa.current_revision()) };
+            crate::verif_life::emit(|| format!("fhandout 1 {}", id.index()));
+            return fields;
+        }
+        #[cfg(not(salsa_rs_salsa_verif))]
         // SAFETY: `data` is a valid pointer acquired from the table.
         unsafe { self.lock_fields(data, zalsa.current_revision()) }
     }
